@@ -232,7 +232,7 @@ def eval_comparator(f, xsec, xusec):
                 return v[1] if v[0] == "c" else None
         if b.cond is not None and len(b.succs) == 2:
             at = cond_atoms(b.cond, True)
-            if len(at) != 1:
+            if not at:
                 return None
             op, L, R, _, _ = at[0]
             fl, fr_ = fieldname(L), fieldname(R)
